@@ -1,6 +1,7 @@
 import ApolloModel.Model.Proto
 import ApolloModel.Model.SchemaValidation
-open Apollo Apollo.Proto Apollo.SchemaValidation
+import ApolloModel.Model.Implementation
+open Apollo Apollo.Proto Apollo.SchemaValidation Apollo.SchemaInvariants Apollo.Implementation
 namespace Driver
 
 /-- streams of property C14 are named `c14.<name>` (cases written by harness/src/p14.rs) -/
@@ -9,8 +10,11 @@ def natList (s : String) : List Nat := (s.splitOn ",").filterMap String.toNat?
 
 def showNats (l : List Nat) : String := ",".intercalate (l.map toString)
 
-/-- `N3` `n3` `L3` `l3` `S` -/
-def decodeIField (s : String) : IField :=
+/-- `N3` `n3` `L3` `l3` `S`, optionally followed by `d` -/
+def decodeIField (s0 : String) : IField :=
+  -- a trailing `d` marks a field that also has a default value: the search looks at the type only,
+  -- so the model's field carries no such flag and the mark is dropped here
+  let s := if s0.endsWith "d" then (s0.dropEnd 1).toString else s0
   match s.toList with
   | 'N' :: ds => { nonNullNamed := true, target := (String.ofList ds).toNat?.getD 1000000 }
   | 'S' :: _ => { nonNullNamed := true, target := 1000000 }
@@ -50,6 +54,36 @@ def decodeDType (s : String) : DType :=
       fields := decodeDArgs fs }
   | _ => { kind := .scalar, dirs := [], valueDirs := [], fields := [] }
 
+/-- `aname^printedType^r|o` -/
+def decodeArg (s : String) : Arg :=
+  match s.splitOn "^" with
+  | [n, t, r] => { name := n, ty := t, required := r == "r" }
+  | _ => { name := "", ty := "", required := false }
+
+/-- `name~<Ty.decode format>~arg,arg` -/
+def decodeFieldM (s : String) : Option FieldM :=
+  match s.splitOn "~" with
+  | [n, t, as] => (Ty.decode t).map fun ty => { name := n, ty := ty, args := ((as.splitOn ",").filter (· ≠ "")).map decodeArg }
+  | _ => none
+
+def decodeFields (s : String) : Option (List FieldM) :=
+  ((s.splitOn "&").filter (· ≠ "")).mapM decodeFieldM
+
+/-- `abstract>concrete,…` -/
+def decodeSub (s : String) : Name → Name → Bool :=
+  let pairs := (s.splitOn ",").filterMap fun p => match p.splitOn ">" with | [a, c] => some (a, c) | _ => none
+  fun a c => pairs.contains (a, c)
+
+def decodeKindEnv (s : String) : String → Option Kind :=
+  let pairs := (s.splitOn ",").filterMap fun p =>
+    match p.splitOn ":" with
+    | [n, k] => some (n, match k with
+        | "s" => Kind.scalar | "o" => Kind.object | "i" => Kind.interface | "u" => Kind.union | "e" => Kind.enum | _ => Kind.input)
+    | _ => none
+  fun n => (pairs.find? (·.1 == n)).map (·.2)
+
+def strList (s : String) : List String := (s.splitOn ",").filter (· ≠ "")
+
 def verdictOf (l : List Nat) : String := if l.isEmpty then "ok" else "err:" ++ showNats l
 
 def c14 (stream : String) (fs : List String) : String :=
@@ -67,6 +101,15 @@ def c14 (stream : String) (fs : List String) : String :=
       { dirs := if dirs == "" then [] else (dirs.splitOn "|").map decodeDArgs,
         types := if types == "" then [] else (types.splitOn "|").map decodeDType }
     verdictOf (failingDirectives s (limit.toNat?.getD 0))
+  | "c14.implfields", [sub, tfields, ifaces] =>
+    match decodeFields tfields, ((ifaces.splitOn "|").map decodeFields).mapM id with
+    | some tf, some ifs =>
+      toString (implDiags (decodeSub sub) (fun i => ifs[i]?) tf (List.range ifs.length)).length
+    | _, _ => "bad-case"
+  | "c14.kinds", [env, fts, ats, ifts, ms] =>
+    let k := decodeKindEnv env
+    let c (t : TypeRefs) := toString (typeRefDiags k t).length
+    c ⟨strList fts, strList ats, [], []⟩ ++ "," ++ c ⟨[], [], strList ifts, []⟩ ++ "," ++ c ⟨[], [], [], strList ms⟩
   | _, _ => "bad-case"
 
 end Driver
